@@ -207,9 +207,9 @@ func Assemble(a *Asm) ([]byte, []Slot) {
 	}
 	file := &builder{wide: wide}
 	if a.Version == "b1" {
-		file.raw([]byte{0x86})
+		file.narrow("toplevel.count", 4, 6)
 	} else {
-		file.raw([]byte{0x85})
+		file.narrow("toplevel.count", 4, 5)
 	}
 	file.raw([]byte{0x48})
 	file.raw(magic)
